@@ -1,4 +1,5 @@
 import CircBuf.Lemmas.Tie.PushPop
+import CircBuf.Lemmas.NonDefect
 import CircBuf.Props.C02
 /-!
 # C02 — single-element insertion never loses an element silently: the theorems of `Props/C02.lean`, restated about the *translated source*
@@ -19,7 +20,7 @@ theorem C02_push_back_src (s : Sys) (x : Elem) (h : Inv s.buf) :
                 else if (abs s.buf).length = s.buf.cap then (abs s.buf).tail ++ [x]
                 else abs s.buf ++ [x]) := by
   first
-  | (rw [tie_push_back _ s h]; exact C02_push_back s x h)
+  | (rw [tie_push_back _ s h (nd_pushBack _ s h)]; exact C02_push_back s x h)
 
 theorem C02_push_front_src (s : Sys) (x : Elem) (h : Inv s.buf) :
     ∃ b', Gen.push_front x s = (.ok (displacedFront s.buf.cap (abs s.buf) x), { s with buf := b' }) ∧
@@ -28,20 +29,20 @@ theorem C02_push_front_src (s : Sys) (x : Elem) (h : Inv s.buf) :
                 else if (abs s.buf).length = s.buf.cap then x :: (abs s.buf).dropLast
                 else x :: abs s.buf) := by
   first
-  | (rw [tie_push_front _ s h]; exact C02_push_front s x h)
+  | (rw [tie_push_front _ s h (nd_pushFront _ s h)]; exact C02_push_front s x h)
 
 theorem C02_try_push_back_src (s : Sys) (x : Elem) (h : Inv s.buf) :
     (s.buf.size = s.buf.cap → Gen.try_push_back x s = (.ok (.error x), s)) ∧
     (s.buf.size ≠ s.buf.cap → ∃ b', Gen.try_push_back x s = (.ok (.ok ()), { s with buf := b' }) ∧
         Inv b' ∧ b'.cap = s.buf.cap ∧ abs b' = abs s.buf ++ [x] ∧ b'.size = s.buf.size + 1) := by
   first
-  | (rw [tie_try_push_back _ s h]; exact C02_try_push_back s x h)
+  | (rw [tie_try_push_back _ s h (nd_tryPushBack _ s h)]; exact C02_try_push_back s x h)
 
 theorem C02_try_push_front_src (s : Sys) (x : Elem) (h : Inv s.buf) :
     (s.buf.size = s.buf.cap → Gen.try_push_front x s = (.ok (.error x), s)) ∧
     (s.buf.size ≠ s.buf.cap → ∃ b', Gen.try_push_front x s = (.ok (.ok ()), { s with buf := b' }) ∧
         Inv b' ∧ b'.cap = s.buf.cap ∧ abs b' = x :: abs s.buf ∧ b'.size = s.buf.size + 1) := by
   first
-  | (rw [tie_try_push_front _ s h]; exact C02_try_push_front s x h)
+  | (rw [tie_try_push_front _ s h (nd_tryPushFront _ s h)]; exact C02_try_push_front s x h)
 
 end CircBuf
